@@ -24,7 +24,8 @@ pub mod driver_mpsc {
     use super::*;
     pub struct SendError<T>(pub T);
     pub enum TrySendError<T> { Full(T), Closed(T) }
-    pub struct Sender<T> { pub p: core::marker::PhantomData<T> }
+    // `id`: ghost identity (a struct of PhantomData only would be single-valued: any two values provably equal)
+    pub struct Sender<T> { pub p: core::marker::PhantomData<T>, pub id: Ghost<int> }
     impl<T> Sender<T> {
         /// the receiving end (the driver's writer loop) has gone away
         pub uninterp spec fn closed(&self) -> bool;
